@@ -17,7 +17,6 @@ import (
 	"reflect"
 	"runtime"
 	"sort"
-	"strings"
 	"time"
 )
 
@@ -41,6 +40,7 @@ type Config struct {
 	Trace       bool  // keep a readable log of visible operations
 	NoKeys      bool  // do not compute state keys (faster when cache is off)
 	KeyNoLast   bool  // leave the last-run goroutine out of the state key (sound when the bound is infinite)
+	GroupDepth  int   // >0: goroutines sharing the first GroupDepth+1 id components form a group; inside a group only the first enabled goroutine is offered (coarse-grained interleaving of groups)
 }
 
 type Sched struct {
@@ -55,7 +55,7 @@ type Sched struct {
 	Alts    []int
 	Cost    []int   // deviations spent before each choice point
 	AltCost [][]int // cost of each alternative at each choice point
-	Keys    []string
+	Keys    []StateKey
 
 	Steps       int
 	Fatal       string // process-fatal event (panic escaping a goroutine, runtime throw)
@@ -92,6 +92,7 @@ type G struct {
 	op     *op
 	done   bool
 	hist   uint64
+	idh    uint64
 	nspawn int
 	nobj   int
 	Daemon bool
@@ -1329,21 +1330,40 @@ func (s *Sched) fire(t *vtimer) []*G {
 	return nil
 }
 
-func (s *Sched) stateKey() string {
-	parts := make([]string, 0, len(s.gs)+1)
+// StateKey identifies a scheduler state up to Mazurkiewicz equivalence: a commutative
+// combination of (goroutine id, hash of that goroutine's own history of visible
+// operations and observed results), plus the last-run goroutine (bounded search only)
+// and the environment counters.
+type StateKey struct {
+	Sum, Xor uint64
+	Last     uint64
+	Env      uint64
+}
+
+func (s *Sched) stateKey() StateKey {
+	var k StateKey
 	for _, g := range s.gs {
+		h := g.hist
 		if g.done {
-			parts = append(parts, g.id+"=done")
-		} else {
-			parts = append(parts, fmt.Sprintf("%s=%x", g.id, g.hist))
+			h = 0xd0ed0ed0e
 		}
+		if g.idh == 0 {
+			g.idh = hmix(0x9e3779b97f4a7c15, g.id)
+		}
+		m := (g.idh ^ h) * 0xff51afd7ed558ccd
+		m ^= m >> 33
+		m = (m + g.idh) * 0xc4ceb9fe1a85ec53
+		k.Sum += m
+		k.Xor ^= m*31 + h
 	}
-	sort.Strings(parts)
-	last := ""
 	if s.lastRun != nil && !s.Cfg.KeyNoLast {
-		last = s.lastRun.id
+		if s.lastRun.idh == 0 {
+			s.lastRun.idh = hmix(0x9e3779b97f4a7c15, s.lastRun.id)
+		}
+		k.Last = s.lastRun.idh
 	}
-	return strings.Join(parts, ",") + "|" + last + fmt.Sprintf("|t%d,%d", s.fired, s.now)
+	k.Env = uint64(s.fired)<<40 ^ uint64(s.now)
+	return k
 }
 
 // Run executes body under a fresh scheduler following cfg.Prefix and then the default
@@ -1371,6 +1391,7 @@ func Run(cfg Config, body func()) *Sched {
 
 	for s.Fatal == "" && s.RootPanic == "" {
 		var ts []trans
+		groupMode := false
 		// canonical order: the goroutine that ran last first, then creation order
 		lastEnabled := false
 		if s.lastRun != nil && !s.lastRun.done {
@@ -1385,6 +1406,31 @@ func Run(cfg Config, body func()) *Sched {
 				continue
 			}
 			ts = append(ts, s.transitionsOf(g)...)
+		}
+		if s.Cfg.GroupDepth > 0 && s.branching {
+			// groups behave like threads: inside a group only the first enabled goroutine is
+			// offered; leaving a group that still has an enabled goroutine is a preemption
+			seen := map[string]*G{}
+			lastGroup := ""
+			if s.lastRun != nil {
+				lastGroup = groupOf(s.lastRun.id, s.Cfg.GroupDepth)
+			}
+			var own, others []trans
+			for _, t := range ts {
+				grp := groupOf(t.g.id, s.Cfg.GroupDepth)
+				if first, ok := seen[grp]; ok && first != t.g {
+					continue
+				}
+				seen[grp] = t.g
+				if grp == lastGroup {
+					own = append(own, t)
+				} else {
+					others = append(others, t)
+				}
+			}
+			ts = append(own, others...)
+			lastEnabled = len(own) > 0
+			groupMode = true
 		}
 		nG := len(ts)
 		// environment: timer firings (sleepers are always eligible, tickers/timers within budget)
@@ -1430,6 +1476,10 @@ func Run(cfg Config, body func()) *Sched {
 					}
 					if t.g != s.lastRun && lastEnabled {
 						costs[i]++
+					}
+				case groupMode:
+					if lastEnabled && s.lastRun != nil && groupOf(t.g.id, s.Cfg.GroupDepth) != groupOf(s.lastRun.id, s.Cfg.GroupDepth) {
+						costs[i] = 1
 					}
 				case t.g != s.lastRun && lastEnabled:
 					costs[i] = 1
@@ -1485,6 +1535,19 @@ func Run(cfg Config, body func()) *Sched {
 	}
 	S = nil
 	return s
+}
+
+func groupOf(id string, depth int) string {
+	n := 0
+	for i := 0; i < len(id); i++ {
+		if id[i] == '.' {
+			n++
+			if n > depth {
+				return id[:i]
+			}
+		}
+	}
+	return id
 }
 
 // NumGoroutines reports how many controlled goroutines were spawned (vacuity guard).
